@@ -375,7 +375,12 @@ class TypesModule:
                 raise AnalysisError(f"{self.rel}:{st.lineno}: {name} rebound to a string")
             self.str_consts[name] = value.value
             return
-        if isinstance(value, (ast.Dict, ast.List)):
+        if isinstance(value, (ast.Dict, ast.List, ast.Tuple, ast.Set)):
+            self.tables[name] = value
+            return
+        # immutable / wrapped tables: frozenset({...}), tuple([...]), MappingProxyType({...}), dict(...)
+        if isinstance(value, ast.Call) and (dotted(value.func) or "").split(".")[-1] in (
+                "frozenset", "tuple", "set", "list", "dict", "MappingProxyType") and name.upper() == name:
             self.tables[name] = value
             return
         if isinstance(value, ast.Name) and value.id == "object" and name == "LSPObject":
